@@ -651,6 +651,9 @@ impl World for PsetFlowWorld {
             Case::Extract { pset } => {
                 ctx.sig("extract");
                 ctx.nontrivial = true;
+                ctx.sig_n("n_in", pset.n_in as u64);
+                ctx.sig_n("n_out", pset.n_out as u64);
+                ctx.sig_n("flags", pset.bip174 as u64 | (pset.taproot as u64) << 1 | (pset.elements as u64) << 2 | (pset.extras as u64) << 3 | (pset.utxos as u64) << 4 | (pset.blinded_outputs as u64) << 5 | (pset.globals as u64) << 6);
                 let ps = psetgen::pset(pset);
                 check_extract(ctx, &ps);
             }
